@@ -127,7 +127,7 @@ def table_text(n, pad):
 def build_tree(tree):
     """Create the tree under a fresh scratch base; returns (base, root_path)."""
     base = os.path.realpath(tempfile.mkdtemp(prefix="pdv_load_"))
-    root = os.path.join(base, "root")
+    root = os.path.join(base, tree.get("root_name", "root"))      # now and then a folder name with a dot in it
     outside = os.path.join(base, "outside")
     os.makedirs(root)
     os.makedirs(os.path.join(outside, "o1"))
@@ -161,7 +161,7 @@ def build_tree(tree):
     return base, root
 
 
-def run_load(tree, base, root, cfg):
+def run_load(tree, base, root, cfg, keep_tables=None):
     """cfg: {"use_root": bool, "roots": [spec with ROOT placeholder], "raising": bool, "allow_include": bool,
             "start_pattern": str|None}"""
     from pdtable import BlockType
@@ -192,6 +192,10 @@ def run_load(tree, base, root, cfg):
         kw["root_folder"] = root
     if cfg.get("start_pattern"):
         kw["file_name_start_pattern"] = cfg["start_pattern"]
+    if cfg.get("name_pattern"):
+        import re
+
+        kw["file_name_pattern"] = re.compile(cfg["name_pattern"])      # a compiled pattern, used with match()
     if cfg.get("proto_stack"):
         kw["additional_protocol_loaders"] = {}      # puts the protocol dispatcher into the loader stack
     code, exc = 0, None
@@ -231,6 +235,8 @@ def run_load(tree, base, root, cfg):
         stop_observe()
     events = [list(e) for e in events]
     issues = [e for e in events if e[0] == "issue"]
+    if keep_tables is not None:
+        keep_tables.extend(tables)
     trees = None
     if tables and code == 0:
         try:
@@ -263,6 +269,7 @@ def tree_dump(node):
     if kind == "LocationBlock":
         ident = f"{loc.file.local_path}#{loc.row}"
     return {"kind": kind, "id": ident, "table": None if node.table is None else node.table.name,
+            "table_file": None if node.table is None else str(node.table.metadata.origin.input_location.file.local_path),
             "children": [tree_dump(c) for c in node.children],
             "parent_ok": all(c.parent is node for c in node.children)}
 
